@@ -3,6 +3,8 @@ package routing
 import (
 	"context"
 	"net/http"
+	"slices"
+	"sort"
 	"strings"
 	"sync"
 	"sync/atomic"
@@ -52,6 +54,10 @@ type ServiceRouter struct {
 	// map from target name to its gRPC service names,
 	// used for keeping track of a service's routes and manipulating the routing mapping on updates.
 	svcRoutes map[string][]protoreflect.FullName
+
+	// map from target name to its latest description, used to hand over the services
+	// released by a target to another target which also lists them.
+	descs map[string]*bridgedesc.Target
 }
 
 // NewServiceRouter initializes a new [ServiceRouter] with the specified connection pool and options.
@@ -67,6 +73,7 @@ func NewServiceRouter(pool grpcadapter.ClientPool, opts ServiceRouterOpts) *Serv
 		logger:     opts.Logger.WithComponent("grpcbridge.routing"),
 		watcherSet: syncset.New[string](),
 		svcRoutes:  make(map[string][]protoreflect.FullName),
+		descs:      make(map[string]*bridgedesc.Target),
 	}
 }
 
@@ -252,14 +259,18 @@ func (sr *ServiceRouter) updateRoutes(desc *bridgedesc.Target) {
 	}
 
 	// Remove outdated routes
+	var released []protoreflect.FullName
 	for _, route := range sr.svcRoutes[desc.Name] {
 		if _, ok := presentSvcRoutes[route]; !ok {
 			sr.logger.Debug("removing route", "target", desc.Name, "service", route)
 			sr.routes.Delete(route)
+			released = append(released, route)
 		}
 	}
 
 	sr.svcRoutes[desc.Name] = newSvcRoutes
+	sr.descs[desc.Name] = desc
+	sr.handOver(released, desc.Name)
 }
 
 func (sr *ServiceRouter) removeTarget(target string) {
@@ -273,6 +284,41 @@ func (sr *ServiceRouter) removeTarget(target string) {
 	}
 
 	delete(sr.svcRoutes, target)
+	delete(sr.descs, target)
+	sr.handOver(routes, target)
+}
+
+// handOver gives the services released by a target to another target listing them, if any,
+// since a previously conflicting route would otherwise stay unroutable until that target's next update.
+// Must be called with sr.mu held.
+func (sr *ServiceRouter) handOver(released []protoreflect.FullName, releasedBy string) {
+	if len(released) == 0 {
+		return
+	}
+
+	names := make([]string, 0, len(sr.descs))
+	for name := range sr.descs {
+		if name != releasedBy {
+			names = append(names, name)
+		}
+	}
+	sort.Strings(names) // deterministic choice between multiple candidates
+
+	for _, svcName := range released {
+		for _, name := range names {
+			desc := sr.descs[name]
+			idx := slices.IndexFunc(desc.Services, func(s bridgedesc.Service) bool { return s.Name == svcName })
+			if idx < 0 {
+				continue
+			}
+
+			if _, loaded := sr.routes.LoadOrStore(svcName, serviceRoute{target: desc, service: &desc.Services[idx]}); !loaded {
+				sr.logger.Debug("handing over route", "target", name, "service", svcName)
+				sr.svcRoutes[name] = append(sr.svcRoutes[name], svcName)
+			}
+			break
+		}
+	}
 }
 
 func parseRPCName(rpcName string) (protoreflect.FullName, string, bool) {
